@@ -246,6 +246,48 @@ def check_grammar(stmts, ledger, r, budget, acc, origin):
 WORKERS = 3   # process creation does not scale in this sandbox (see DESIGN.md 6)
 
 
+def same_text_two_ids_case(r, acc, origin):
+    """Inside one word the same literal text with and without a description (at different points)."""
+    pre = r.choice(['x', '--o=', 'k:', 'ab'])
+    others = r.sample(['zed', 'q1', 'w'], 2)
+    d = r.choice(['described', 'has a note'])
+    stmts = [gast.call('cmd', gast.seq(('word', (gast.lit(pre), gast.alt(gast.lit(others[0]), gast.lit(pre, d), gast.lit(others[1])))),
+                                       gast.lit('tail')))]
+    text, _, _ = gast.print_grammar(stmts)
+    rc, out, err = comp.compile_text(text, 'bash')
+    if rc != 0:
+        acc.count('not_accepted')
+        return
+    M = refrun.Machine(stmts, {}, 'bash')
+    queries = [{'words': ['cmd', pre], 'cword': 1, 'wb': ''}, {'words': ['cmd', pre + pre, ''], 'cword': 2, 'wb': ''},
+               {'words': ['cmd', pre + others[0], ''], 'cword': 2, 'wb': ''}, {'words': ['cmd', pre + others[0][:1]], 'cword': 1, 'wb': ''}]
+    res = bashrun.run_session(out.decode('utf-8'), 'cmd', queries)
+    if res['timed_out'] or res['source_rc'] != 0:
+        acc.inconclusive.append('bash session failed')
+        return
+    for q, ob in zip(queries, res['results']):
+        if ob is None:
+            continue
+        acc.evals += 1
+        acc.count('same_text_two_descriptions_queries')
+        words = q['words'][1:]
+        ref = M.run(words)
+        exp = ref['expected']
+        obs = {c[:-1] if c.endswith(' ') else c for c in ob['reply']}
+        acc.seen((text, words, ''))
+        if obs != exp:
+            # the emitted loop meets the described twin of the prefix literal first, finds no transition for it at
+            # this point and stops: completion and matching then work from the state before the prefix
+            stale = {pre} if len(words) == 1 and words[0].startswith(pre) and len(words[0]) <= len(pre) + 1 else None
+            sig = 'candidates-differ'
+            if (len(words) == 1 and obs == {pre}) or (len(words) == 2 and obs == set()):
+                sig = 'known-deviation:within-word-same-text-two-ids'
+            acc.violation({'sig': sig, 'grammar': text, 'shell': 'bash',
+                           'query': {'words': q['words'], 'cword': q['cword'], 'wordbreaks': ''},
+                           'expected': sorted(exp), 'observed': sorted(obs), 'rc': ob['rc'], 'stmts': stmts,
+                           'outputs': {}, 'origin': origin})
+
+
 def make_jobs(tier, seed):
     n = 64 if tier == 'quick' else 420
     return [('rand', seed * 1000003 + i, 1, 32 if tier == 'quick' else 40) for i in range(n)]
@@ -254,6 +296,8 @@ def make_jobs(tier, seed):
 def run_job(job, acc):
     _, s, count, budget = job
     r = random.Random(s)
+    if s % 16 == 0:
+        same_text_two_ids_case(r, acc, 'same-text-two-descriptions seed=%d' % s)
     for i in range(count):
         ledger = CmdLedger()
         stmts = profile_grammar(r, ledger)
